@@ -265,7 +265,7 @@ type c18Replay struct {
 }
 
 func c18Opts(tier string) stdOpts {
-	o := stdOpts{IMBound: 1, SeqL: 2, EntrySeqL: 1, EIPs: true, Forks: []world.Fork{world.Frontier, world.Byzantium, world.Berlin, world.Shanghai}, Gas: 200000, MinShape: true}
+	o := stdOpts{IMBound: 1, SeqL: 2, EntrySeqL: 1, EIPs: true, Forks: []world.Fork{world.Frontier, world.Byzantium, world.Berlin, world.Shanghai}, Gas: 200000, MinShape: true, SstoreSeq: true, Scn: true, ScnGas: 3_000_000}
 	if tier == "thorough" {
 		o.Forks = world.StandardForks()
 		o.IMBound = 2
@@ -309,6 +309,10 @@ func init() {
 			forEachStdCase(w, o, func(cs *world.Case, family string) {
 				if family == "BYTES" {
 					return
+				}
+				sess := sess
+				if family == "SCN" || family == "SSTORESEQ" {
+					sess = world.NewSession(cs.Accounts)
 				}
 				// (i) full-data streams
 				d, rrec, r, _ := tracePair(sess, cs, false)
